@@ -3,6 +3,7 @@ From Coq Require Import Strings.String Strings.Byte.
 From Coq Require Import List NArith.
 From Goit Require Import Bytes Tree Index Config World Repo MonadFacts BranchFacts TotalFacts.
 From Goit Require Import Bridge.
+From Goit Require RefusalFacts.
 Import ListNotations.
 
 (* T0 (tie to the source): every regexp literal of the current Go source denotes
@@ -68,3 +69,28 @@ Print Assumptions C18_commit_without_identity.
 Print Assumptions C18_branch_family_refusals.
 Print Assumptions C18_binary_search_terminates.
 Print Assumptions C18_source_patterns_are_the_models.
+
+(* "A command refused ... leaves the repository unchanged", for EVERY command on EVERY world: a refusal
+   either wrote nothing (and the world is the same), or it is one of eleven late refusals, each
+   characterised exactly by RefusalFacts.late_refusal (a commit whose identity does not make a valid
+   signature line: tree objects only; reset --hard / restore stopped by the work tree: a prefix of the
+   successful trace; add / rm / restore with repeated or overlapping arguments; ...) *)
+Theorem C18_every_refusal_classified : forall e c w w' tr,
+  step (ACmd e c) w = (w', OErr, tr) ->
+  w' = apply_effects tr w /\ ((tr = [] /\ w' = w) \/ RefusalFacts.late_refusal e w c tr).
+Proof. exact RefusalFacts.refusal_cases. Qed.
+
+(* the commands for which a refusal NEVER writes, on every world: init, config, status, log, reflog,
+   cat-file, hash-object, ls-files, rev-parse, write-tree, update-ref, branch <name> / --list,
+   switch --create and wrong usage, reset --soft and every refused flag combination *)
+Theorem C18_early_commands_refuse_without_writing : forall e c w w' tr,
+  RefusalFacts.early_cmd c -> step (ACmd e c) w = (w', OErr, tr) -> tr = [] /\ w' = w.
+Proof. exact RefusalFacts.refused_unchanged_all. Qed.
+
+(* read-only commands never write, whatever the outcome *)
+Theorem C18_read_only_commands_never_write : forall e c w w' o tr,
+  RefusalFacts.readonly_cmd c -> step (ACmd e c) w = (w', o, tr) -> tr = [] /\ w' = w.
+Proof. exact RefusalFacts.readonly_step. Qed.
+Print Assumptions C18_every_refusal_classified.
+Print Assumptions C18_early_commands_refuse_without_writing.
+Print Assumptions C18_read_only_commands_never_write.
